@@ -18,10 +18,10 @@ is available and takes the oldest one.  The counter methods are interpreted from
 
 The search is a DFS over every scheduler choice, every stale-read choice of every `load`
 and every (spurious) CAS failure, with a visited set, bounded by `budget` states
-(default 1000000).  Exploration does not continue below a state with `race`, a double free
-or a use after free.
+(default 1000000).  Exploration does not continue below a state with `race`, a double free,
+a use after free or a stored count above the ceiling while handles exist.
 
-Output line: `states=… transitions=… complete=true|false verdict=ok|race|double-free|use-after-free
+Output line: `states=… transitions=… complete=true|false verdict=ok|race|double-free|use-after-free|count-overflow
 outcomes=<o> <o> …[ trace=<labels>]` where an outcome is
 `0:<results of thread 0>/1:<…>/freed=<n>/pval=<n>` (sorted, results as in `Model.Conc.finish`)
 and the trace is the first offending schedule found (`s<t>.<action>` start, `m<t>.<choice>`
@@ -148,11 +148,14 @@ def fmtOutcome (nprog : Nat) (s : State) : String :=
     s!"{t}:" ++ ",".intercalate (((s.thr[t]?.map (·.res)).getD []).map toString)
   "/".intercalate (per ++ [s!"freed={s.freed}", s!"pval={s.pval}"])
 
-/-- `none` = fine, otherwise the kind of violation. -/
-def violation (s : State) : Option String :=
+/-- `none` = fine, otherwise the kind of violation.  `count-overflow` is the executable face of
+`count_tracks`: the stored count exceeds the ceiling while some thread still holds a handle
+(on a correct protocol the count only passes the ceiling by wrapping at the very last drop). -/
+def violation (ceil : Nat) (s : State) : Option String :=
   if s.freed ≥ 2 then some "double-free"
   else if s.uaf then some "use-after-free"
   else if s.race then some "race"
+  else if s.last.val > ceil && s.thr.any (fun th => th.handles > 0) then some "count-overflow"
   else none
 
 structure Result where
@@ -173,7 +176,7 @@ partial def search (c : Cfg) (budget : Nat) (root : Node) : Result := Id.run do
     | [] => pure ()
     | (n, path) :: rest =>
       stack := rest
-      match violation n.s with
+      match violation c.ceil n.s with
       | some kind =>
         if res.bad.isNone then res := { res with bad := some (kind, path.reverse) }
       | none =>
